@@ -470,7 +470,8 @@ pub fn configs(thorough: bool) -> Vec<Cfg> {
             for maxq_ms in [0u64, 1, 50, 2000] {
                 for overrides in [vec![], vec![("A".to_string(), 2u64)], vec![("B".to_string(), 0u64)]] {
                     k += 1;
-                    if !thorough && k % 3 != 0 {
+                    // (k % 3 alone would alias with the three override tables and always pick the same one)
+                    if !thorough && (k + k / 3) % 3 != 0 {
                         continue;
                     }
                     v.push(Cfg::Hotspot { q, d, maxq_ms, overrides: overrides.clone() });
